@@ -74,6 +74,10 @@ def cases(tier, seed):
                 if ln == 3 and len(set(lst)) < 3:
                     continue
                 yield ['e2e', opt, list(lst)]
+    for p in T_PATS:
+        if p and not p.startswith('-'):
+            yield ['e2e', 'positional', [p]]
+            yield ['e2e', 'positional', [p, '!q1 ']]
     # --module (and multi-pattern --test) end to end on modules discovered on
     # disk: shared with C03's real-discovery worlds
     yield from _m_cases()
@@ -210,8 +214,13 @@ def run_case(case):
         return {'evals': 2, 'nontrivial': 2, 'violations': viol, 'outcome': 'e2e_disk'}
     _, opt, lst = case
     argv = []
-    for p in lst:
-        argv += [opt, p]
+    if opt == 'positional':
+        # legacy spelling: [MODULE-FILTER [TEST-FILTER]] as positional arguments
+        argv = ['.', lst[0]] + [x for p in lst[1:] for x in ('-t', p)]
+        opt = '-t'
+    else:
+        for p in lst:
+            argv += [opt, p]
     res = runrt.run_world(WORLD, argv)
     viol = []
     ran = sorted({ev[2] for ev in res.trace if ev[1] == 't' and ev[3] == 'body'})
